@@ -10,6 +10,11 @@
 //! Every value is printed `f<bits>`, or `undef` when it is NaN/±inf (divisions by zero are not
 //! guarded in the code; the model returns "undefined" exactly there).
 //! The numeric oracle (exact rationals) is the Python plug-in tools/props/c15.py.
+//!
+//! Generators: the families of the quantifier (`generate`), and the hardening families `scale_families` (tiny / huge
+//! spreads and scales of the abscissae around 0, 1, -1, 1000, 1e-3; responses at 2^+-200 or with large offsets),
+//! `size_sweep` (every length 3..70, block-size neighbours up to 1025) and `exact_cases` (exact lines, zero slope,
+//! zero responses, signed zeros, 0..3 gradient steps).
 use crate::util::*;
 use spindalis::regressors::{
     GradientDescentRegression, LeastSquaresRegression, LinearModel, LinearRegressor, PolynomialRegression,
@@ -300,8 +305,197 @@ fn emit_fits(rng: &mut Rng, x: &[f64], y: &[f64], emit: &mut dyn FnMut(String), 
     }
 }
 
+// ------------------------------------------------------------------ hardening families (scale, size, ties)
+
+/// abscissae `c + w*t_i`, t in [-1,1]: an even grid (`grid`) or uniform random; `n >= 2`
+fn spread(rng: &mut Rng, n: usize, c: f64, w: f64, grid: bool) -> Vec<f64> {
+    (0..n)
+        .map(|i| {
+            let t = if grid { -1.0 + 2.0 * i as f64 / (n.max(2) - 1) as f64 } else { rng.uniform(-1.0, 1.0) };
+            c + w * t
+        })
+        .collect()
+}
+
+/// responses = (a + b t + d t^2 + noise) * ys with t = (x - c)/w: a slope of order ys/w in x, whatever the scale of x
+fn scaled_responses(rng: &mut Rng, x: &[f64], c: f64, w: f64, ys: f64) -> Vec<f64> {
+    let a = if rng.chance(1, 3) { 0.0 } else { rng.range(-5, 5) as f64 };
+    let b = match rng.below(4) {
+        0 => rng.range(1, 5) as f64,
+        1 => -(rng.range(1, 5) as f64),
+        _ => rng.uniform(-5.0, 5.0),
+    };
+    let d = if rng.chance(1, 3) { rng.uniform(-2.0, 2.0) } else { 0.0 };
+    let noise = *rng.pick(&[0.0, 1e-6, 1e-2, 1.0]);
+    x.iter()
+        .map(|&xi| {
+            let t = (xi - c) / w;
+            (a + b * t + d * t * t + if noise > 0.0 { rng.uniform(-noise, noise) } else { 0.0 }) * ys
+        })
+        .collect()
+}
+
+/// the requests of one data set of the hardening families: line fit, line-vs-order-1 comparison, the polynomial fits
+/// of order 0..=top_poly whatever the conditioning (outside the quantifier the oracle abstains from the refusal clause
+/// and the correspondence still compares), nestedness, and a short gradient descent
+fn emit_all(rng: &mut Rng, x: &[f64], y: &[f64], q: &[f64], top_poly: usize, gd_steps: &[u64], emit: &mut dyn FnMut(String)) {
+    let (rx, ry, rq) = (req_vec_f(x), req_vec_f(y), req_vec_f(q));
+    emit(format!("fit_ls {rx} {ry} {rq}"));
+    emit(format!("line {rx} {ry}"));
+    for m in 0..=top_poly {
+        emit(format!("fit_poly {m} {rx} {ry} {rq}"));
+    }
+    if top_poly >= 1 {
+        emit(format!("nest {top_poly} {rx} {ry}"));
+    }
+    let lmax = lambda_max(x);
+    if lmax.is_finite() && lmax > 0.0 {
+        for &steps in gd_steps {
+            let theta = *rng.pick(&[0.25, 0.5, 0.9]);
+            emit(format!("fit_gd {steps} {} {rx} {ry} {rq}", rbits(theta * 2.0 / lmax)));
+        }
+    }
+}
+
+/// lesson 1 (SCALE): abscissae whose spread, scale or distance from a centre is far from 1 -- a guard or shortcut in
+/// absolute units (`|n Sxx - Sx^2| < 1e-8`, `sq_total < 1e-12`, "skip tiny terms") only shows there.  Centre 0 makes
+/// the half-width the scale of the whole data set (10^-140 .. 10^140); centres 1, -1, 1000, 1e-3 and a few widths
+/// next to the origin give "values next to c at every distance".  Responses at scale 1 and at 2^+-k.
+fn scale_families(rng: &mut Rng, thorough: bool, emit: &mut dyn FnMut(String)) {
+    let reps = if thorough { 8 } else { 1 };
+    // (centre, decimal exponents of the half-width)
+    let origin: Vec<i32> = (-17..=-1)
+        .chain([-140, -100, -60, -30, -22, -20, 0, 3, 6, 9, 12, 15, 18, 30, 60, 100, 140])
+        .collect();
+    let near: Vec<i32> = (-9..=-1).collect();
+    let centres: [(f64, &Vec<i32>); 6] =
+        [(0.0, &origin), (1.0, &near), (-1.0, &near), (1000.0, &near), (1e-3, &near), (f64::NAN, &near)];
+    for (c0, exps) in centres {
+        for &e in exps.iter() {
+            for rep in 0..reps {
+                let w = if rep % 2 == 1 { 2f64.powi((e as f64 * 3.3219).round() as i32) } else { 10f64.powi(e) };
+                // NaN stands for "a centre a few half-widths from the origin" (one-sided data next to 0)
+                let c = if c0.is_nan() { w * *rng.pick(&[1.0, 1.5, 3.0, -2.0]) } else { c0 };
+                for n in [3usize, 4, 7, 20] {
+                    let grid = rng.chance(1, 2);
+                    let x = spread(rng, n, c, w, grid || n == 3 && rep == 0);
+                    if distinct(&x) < 3 {
+                        continue;
+                    }
+                    let ys = if rng.chance(1, 4) { 2f64.powi(*rng.pick(&[-200, -70, -40, -20, 20, 40, 60, 200])) } else { 1.0 };
+                    let y = if e.abs() <= 9 && ys == 1.0 && rng.chance(1, 2) {
+                        let noise = *rng.pick(&[0.0, 1e-6, 1e-2, 1.0]);
+                        responses(rng, &x, noise)
+                    } else {
+                        scaled_responses(rng, &x, c, w, ys)
+                    };
+                    let q = vec![c + w * rng.uniform(-1.0, 1.0), c + 2.0 * w, 0.0, -c];
+                    let top = if n == 3 { 1 } else { 2 };
+                    emit_all(rng, &x, &y, &q, top, if n == 7 { &[10, 100] } else { &[37] }, emit);
+                }
+            }
+        }
+    }
+    // ordinary abscissae, responses with a large constant offset and a small variation, or at extreme scales:
+    // SST and SSE are differences of large numbers / far from 1
+    for _ in 0..(if thorough { 400 } else { 40 }) {
+        let n = rng.range(3, 30) as usize;
+        let style = rng.below(8);
+        let x = abscissae(rng, n, style);
+        if distinct(&x) < 3 {
+            continue;
+        }
+        let noise = *rng.pick(&[0.0, 1e-6, 1e-2, 1.0]);
+        let mut y = responses(rng, &x, noise);
+        match rng.below(3) {
+            0 => {
+                let off = *rng.pick(&[1e3, 1e6, 1e9, -1e6, 1e12]);
+                let sc = *rng.pick(&[1.0, 1e-3, 1e-6]);
+                for v in y.iter_mut() {
+                    *v = off + sc * *v;
+                }
+            }
+            1 => {
+                let s = 2f64.powi(*rng.pick(&[-200, -100, -70, -40, -20, -10]));
+                for v in y.iter_mut() {
+                    *v *= s;
+                }
+            }
+            _ => {
+                let s = 2f64.powi(*rng.pick(&[200, 100, 60, 40, 20, 10]));
+                for v in y.iter_mut() {
+                    *v *= s;
+                }
+            }
+        }
+        let q = queries(rng, &x);
+        let top = max_order(&x).unwrap_or(0).min(3);
+        emit_all(rng, &x, &y, &q, top, &[100], emit);
+    }
+}
+
+/// lesson 2 (SIZE): every length 3..=70 once, and lengths around the usual block sizes up to 1025 -- unrolled or
+/// chunked sums only differ from the plain loop beyond their block length
+fn size_sweep(rng: &mut Rng, thorough: bool, emit: &mut dyn FnMut(String)) {
+    let mut ns: Vec<usize> = (3..=70).collect();
+    ns.extend([95, 96, 97, 127, 128, 129, 255, 256, 257]);
+    if thorough {
+        ns.extend([511, 512, 513, 1000, 1023, 1024, 1025]);
+        ns.extend(71..=94);
+    }
+    for n in ns {
+        let style = *rng.pick(&[0u64, 1, 1, 2, 4, 6, 7]);
+        let x: Vec<f64> = if style == 0 || style == 6 {
+            // keep the grids inside a bounded range whatever the length
+            (0..n).map(|i| (i as f64 - (n / 2) as f64) * 8.0 / n as f64).collect()
+        } else {
+            abscissae(rng, n, style)
+        };
+        let noise = *rng.pick(&[0.0, 1e-2, 1.0]);
+        let y = responses(rng, &x, noise);
+        let q = queries(rng, &x);
+        let top = if n <= 129 { max_order(&x).unwrap_or(0).min(3) } else { 1 };
+        emit_all(rng, &x, &y, &q, top, if n <= 129 { &[50] } else { &[5] }, emit);
+    }
+}
+
+/// lessons 3 and 5 (TIES / ZEROS / SIGNS, first pass vs later passes): exact lines (SSE = 0), slope exactly 0,
+/// all-zero responses, signed zeros among abscissae and responses, negative slopes, 0..3 gradient steps
+fn exact_cases(rng: &mut Rng, thorough: bool, emit: &mut dyn FnMut(String)) {
+    for rep in 0..(if thorough { 40 } else { 6 }) {
+        let n = rng.range(3, 12) as usize;
+        let x: Vec<f64> = match rep % 3 {
+            0 => (0..n).map(|i| i as f64 - 2.0).collect(),
+            1 => (0..n).map(|_| rng.dyadic(32, 3)).collect(),
+            _ => (0..n).map(|i| if i == 1 { -0.0 } else { (i as f64) * 0.5 - 1.0 }).collect(),
+        };
+        if distinct(&x) < 3 {
+            continue;
+        }
+        let (a, b) = (rng.range(-4, 4) as f64, rng.range(-4, 4) as f64);
+        let variants: Vec<Vec<f64>> = vec![
+            x.iter().map(|v| a + b * v).collect(),                      // exact line
+            x.iter().map(|v| a + 0.0 * v).collect(),                    // slope exactly 0
+            vec![0.0; n],                                               // SST = 0 and SSE = 0
+            (0..n).map(|i| if i % 2 == 0 { -0.0 } else { 0.0 }).collect(),
+            x.iter().map(|v| -3.0 * v).collect(),                       // through the origin, negative slope
+            x.iter().map(|v| a + b * v + 0.25 * v * v).collect(),       // exact parabola
+        ];
+        for y in variants {
+            let q = vec![0.0, -0.0, 1.0, -1.0, rng.uniform(-3.0, 3.0)];
+            emit_all(rng, &x, &y, &q, 2, &[0, 1, 2, 3], emit);
+        }
+    }
+}
+
 pub fn generate(seed: u64, thorough: bool, emit: &mut dyn FnMut(String)) {
     let mut rng = Rng::new(seed ^ 0xC15);
+    {
+        let mut r2 = Rng::new(seed ^ 0xC15_0001);
+        scale_families(&mut r2, thorough, emit);
+        size_sweep(&mut r2, thorough, emit);
+        exact_cases(&mut r2, thorough, emit);
+    }
     // work budget for gradient descent in (steps x points)
     let mut gd_budget: i64 = if thorough { 3_000_000_000 } else { 60_000_000 };
     // outside the quantifier (0..2 points, mismatched lengths): correspondence only
